@@ -11,7 +11,7 @@ for p in props:
         c=src['claims'][p]
         checks.append({"property_id":p,
           "quick_cmd":"./bin/vcheck check %s --tier quick"%p,
-          "thorough_cmd":"./bin/vcheck check %s --tier thorough"%p,
+          "thorough_cmd":"tools/thorough.sh %s"%p,
           "evidence_file":"/verif/evidence/%s.json"%p,
           "replay_cmd_template":"./bin/vcheck replay {path}",
           "engine":"gocv",
